@@ -397,6 +397,33 @@ func (e *Engine) Generate(prop, tier string, seed uint64, run int) *sim.Plan {
 		}
 		p.Cfg["closing_motif"] = true
 	}
+	// second closing motif: something published by one replica is fetched, but not merged, by
+	// another one, and nothing else happens on the remote afterwards: the synchronisation that
+	// follows has to merge what is already in the remote-tracking refs
+	if fr := sim.NewRand(sim.Mix(rs, 0xFE7C)); nrep >= 2 && nhub == 1 && !faults && prop != "C14" && prop != "C09" && prop != "C15" && p.Cfg["closing_motif"] == nil && fr.Chance(0.3) {
+		a, b := 0, 1
+		if fr.Chance(0.5) {
+			a, b = 1, 0
+		}
+		for round := 0; round < 2; round++ {
+			for i := 0; i < nrep; i++ {
+				id++
+				p.Steps = append(p.Steps, sim.Step{Id: id, Op: "pull", R: i, D: 5})
+				id++
+				p.Steps = append(p.Steps, sim.Step{Id: id, Op: "push", R: i, D: 5})
+			}
+		}
+		id++
+		ed := sim.Step{Id: id, Op: "edit", R: a, D: 60, B: fr.Intn(64), N: 1}
+		ed.Sub = []sim.Step{genSub(fr, id*100)}
+		ed.Sub[0].K, ed.Sub[0].S, ed.Sub[0].L = "comment", "fetched but not merged "+word(fr), nil
+		p.Steps = append(p.Steps, ed)
+		id++
+		p.Steps = append(p.Steps, sim.Step{Id: id, Op: "push", R: a, D: 5})
+		id++
+		p.Steps = append(p.Steps, sim.Step{Id: id, Op: "fetch", R: b, D: 5})
+		p.Cfg["closing_motif"] = "fetch-only"
+	}
 	if prop == "C15" && sim.NewRand(sim.Mix(rs, 0xC15E)).Chance(0.3) {
 		// git-bug takes itself out of the host repository again
 		id++
